@@ -372,7 +372,7 @@ def r05d(ctx):
 
 @rule(
     "R05f",
-    ["C05"],
+    ["C05", "C15"],
     """COLLECTIONS ARE NOT EDITED THROUGH AN ALIAS: in the methods of the collection classes (FrameBase, DataFrame, Series,
     Index) a local that may still be `self` (assigned from `self` without .copy() / a selection / another derived
     collection on some path) may not be item-assigned or have attributes set: `alias[col] = ...` goes through
